@@ -690,8 +690,10 @@ class Stage:
         """
         if grid=='inf':
             return self._create_placeholder_expr(expr, 'integral')
-        else:
+        elif grid=='control':
             return self._create_placeholder_expr(expr, 'integral_control', refine=refine)
+        else:
+            raise Exception("Unknown grid option: {}. Options are: 'inf' or 'control'.".format(grid))
 
     def sum(self, expr, grid='control', include_last=False):
         """Compute a sum
